@@ -398,8 +398,9 @@ func referrerListDedup(rl []types.Descriptor) []types.Descriptor {
 
 // repoGarbageCollect runs a GC against the repo.
 // The repo should be locked before calling this.
-// Changes to the index will be returned and should be saved to the store.
-func repoGarbageCollect(repo Repo, conf config.Config, index types.Index, locked bool) (types.Index, bool, error) {
+// Changes to the index are passed to save before any blob is deleted, so that an interrupted GC
+// never leaves index entries without their blob. The modified index is also returned.
+func repoGarbageCollect(repo Repo, conf config.Config, index types.Index, locked bool, save func(types.Index) error) (types.Index, bool, error) {
 	var cutoff time.Time
 	if conf.Storage.GC.GracePeriod >= 0 {
 		cutoff = time.Now().Add(conf.Storage.GC.GracePeriod * -1)
@@ -508,6 +509,7 @@ func repoGarbageCollect(repo Repo, conf config.Config, index types.Index, locked
 	// clean old blobs that were not seen
 	mod := false
 	blobExists := map[digest.Digest]bool{}
+	blobDel := []digest.Digest{}
 	dl, err := repo.blobList(locked)
 	if err != nil {
 		return index, false, fmt.Errorf("failed to list blobs to GC: %w", err)
@@ -527,8 +529,7 @@ func repoGarbageCollect(repo Repo, conf config.Config, index types.Index, locked
 			mod = true
 			index.RmDesc(types.Descriptor{Digest: d})
 		}
-		// attempt to prune from blob store, ignoring errors
-		_ = repo.blobDelete(d, locked)
+		blobDel = append(blobDel, d)
 	}
 	// cleanup index entries without a backing blob
 	for d := range inIndex {
@@ -536,6 +537,16 @@ func repoGarbageCollect(repo Repo, conf config.Config, index types.Index, locked
 			mod = true
 			index.RmDesc(types.Descriptor{Digest: d})
 		}
+	}
+	// save the index before the blobs it no longer references are deleted
+	if mod && save != nil {
+		if err := save(index); err != nil {
+			return index, mod, err
+		}
+	}
+	for _, d := range blobDel {
+		// attempt to prune from blob store, ignoring errors
+		_ = repo.blobDelete(d, locked)
 	}
 	return index, mod, nil
 }
